@@ -1,0 +1,218 @@
+// Copyright 1995-2016 V.I. Tretyak
+// Copyright 2011-2017 F. Mauger
+//
+// This program is free software: you  can redistribute it and/or modify
+// it under the terms of the GNU General Public License as published by
+// the Free  Software Foundation, either  version 3 of the  License, or
+// (at your option) any later version.
+//
+// This program is distributed in the hope that it will be useful, but
+// WITHOUT ANY WARRANTY
+// MERCHANTABILITY or FITNESS FOR A PARTICULAR PURPOSE. See the GNU
+// General Public License for more details.
+//
+// You should have received a copy of the GNU General Public License
+// along with this program. If not, see <http://www.gnu.org/licenses/>.
+
+// Ourselves:
+#include <bxdecay0/W184low.h>
+
+// Standard library:
+#include <cmath>
+#include <sstream>
+#include <stdexcept>
+
+// This project:
+#include <bxdecay0/PbAtShell.h>
+#include <bxdecay0/alpha.h>
+#include <bxdecay0/beta.h>
+#include <bxdecay0/beta1.h>
+#include <bxdecay0/beta2.h>
+#include <bxdecay0/beta_1fu.h>
+#include <bxdecay0/electron.h>
+#include <bxdecay0/event.h>
+#include <bxdecay0/gamma.h>
+#include <bxdecay0/i_random.h>
+#include <bxdecay0/nucltransK.h>
+#include <bxdecay0/nucltransKL.h>
+#include <bxdecay0/nucltransKLM.h>
+#include <bxdecay0/nucltransKLM_Pb.h>
+#include <bxdecay0/pair.h>
+#include <bxdecay0/particle.h>
+#include <bxdecay0/positron.h>
+
+namespace bxdecay0 {
+
+  void W184low(i_random & prng_, event & event_, const int levelkev_)
+  {
+    double p;
+    double tdlev;
+    double tclev;
+    double thlev;
+    // Subroutine describes the deexcitation process in W184 nucleus
+    // after eb+/2e decay of Os184 to ground and excited 0+ and 2+ levels
+    // of W184 (in accordance with NDS 111(2010)275 and NNDC on 22.06.2012).
+    // Call : call W184low(levelkev_)
+    // Input : levelkev_ - energy of W184 level (integer in keV) occupied
+    // initially
+    // 0+(gs) - 0 keV,
+    // 2+(1) - 111 keV,
+    // 2+(2) - 903 keV,
+    // 0+(1) - 1002 keV,
+    // 2+(3) - 1121 keV,
+    // 0+(2) - 1322 keV,
+    // 2+(4) - 1386 keV,
+    // 2+(5) - 1431 keV.
+    // Output: // common/genevent/tevst,npfull,npgeant(100),pmoment(3,100),// ptime(100).
+    // VIT, 28.06.2012.
+    tclev = 0.;
+    if (levelkev_ == 1431) {
+      goto label_1431;
+    }
+    if (levelkev_ == 1386) {
+      goto label_1386;
+    }
+    if (levelkev_ == 1322) {
+      goto label_1322;
+    }
+    if (levelkev_ == 1121) {
+      goto label_1121;
+    }
+    if (levelkev_ == 1002) {
+      goto label_1002;
+    }
+    if (levelkev_ == 903) {
+      goto label_903;
+    }
+    if (levelkev_ == 111) {
+      goto label_111;
+    }
+    if (levelkev_ == 0) {
+      goto label_10000;
+    }
+    goto label_20000;
+  label_1431:
+    thlev = 5.0e-12;
+    p = 100. * prng_();
+    if (p <= 4.43) {
+      goto label_14311;
+    }
+    if (p <= 57.82) {
+      goto label_14312;
+    }
+    goto label_14313;
+  label_14311:
+    decay0_nucltransK(prng_, event_, 0.424, 0.070, 8.7e-2, 0., tclev, thlev, tdlev);
+    goto label_1006;
+  label_14312:
+    decay0_nucltransK(prng_, event_, 1.320, 0.070, 2.6e-3, 2.1e-5, tclev, thlev, tdlev);
+    goto label_111;
+  label_14313:
+    decay0_nucltransK(prng_, event_, 1.431, 0.070, 2.3e-3, 4.8e-5, tclev, thlev, tdlev);
+    goto label_10000;
+  label_1386:
+    thlev = 1.08e-12;
+    p = 100. * prng_();
+    if (p <= 1.94) {
+      goto label_13861;
+    }
+    if (p <= 9.81) {
+      goto label_13862;
+    }
+    if (p <= 59.64) {
+      goto label_13863;
+    }
+    goto label_13864;
+  label_13861:
+    decay0_nucltransK(prng_, event_, 0.380, 0.070, 7.0e-2, 0., tclev, thlev, tdlev);
+    goto label_1006;
+  label_13862:
+    decay0_nucltransK(prng_, event_, 0.483, 0.070, 4.2e-2, 0., tclev, thlev, tdlev);
+    goto label_903;
+  label_13863:
+    decay0_nucltransK(prng_, event_, 1.275, 0.070, 4.0e-3, 1.6e-5, tclev, thlev, tdlev);
+    goto label_111;
+  label_13864:
+    decay0_nucltransK(prng_, event_, 1.386, 0.070, 2.4e-3, 3.6e-5, tclev, thlev, tdlev);
+    goto label_10000;
+  label_1322:
+    thlev = 0.;
+    decay0_nucltransK(prng_, event_, 0.419, 0.070, 3.3e-2, 0., tclev, thlev, tdlev);
+    goto label_903;
+  label_1121:
+    thlev = 4.5e-12;
+    p = 100. * prng_();
+    if (p <= 33.65) {
+      goto label_11211;
+    }
+    if (p <= 81.73) {
+      goto label_11212;
+    }
+    goto label_11213;
+  label_11211:
+    decay0_nucltransK(prng_, event_, 0.757, 0.070, 8.0e-3, 0., tclev, thlev, tdlev);
+    goto label_364;
+  label_11212:
+    decay0_nucltransK(prng_, event_, 1.010, 0.070, 1.4e-2, 0., tclev, thlev, tdlev);
+    goto label_111;
+  label_11213:
+    decay0_nucltransK(prng_, event_, 1.121, 0.070, 3.6e-3, 0., tclev, thlev, tdlev);
+    goto label_10000;
+  label_1006:
+    thlev = 0.;
+    p = 100. * prng_();
+    if (p <= 11.03) {
+      goto label_10061;
+    }
+    goto label_10062;
+  label_10061:
+    decay0_nucltransK(prng_, event_, 0.642, 0.070, 1.2e-2, 0., tclev, thlev, tdlev);
+    goto label_364;
+  label_10062:
+    decay0_nucltransK(prng_, event_, 0.895, 0.070, 5.7e-3, 0., tclev, thlev, tdlev);
+    goto label_111;
+  label_1002:
+    thlev = 0.;
+    decay0_nucltransK(prng_, event_, 0.891, 0.070, 5.8e-3, 0., tclev, thlev, tdlev);
+    goto label_111;
+  label_903:
+    thlev = 1.71e-12;
+    p = 100. * prng_();
+    if (p <= 0.42) {
+      goto label_90301;
+    }
+    if (p <= 49.84) {
+      goto label_90302;
+    }
+    goto label_90303;
+  label_90301:
+    decay0_nucltransK(prng_, event_, 0.539, 0.070, 1.7e-2, 0., tclev, thlev, tdlev);
+    goto label_364;
+  label_90302:
+    decay0_nucltransK(prng_, event_, 0.792, 0.070, 7.3e-3, 0., tclev, thlev, tdlev);
+    goto label_111;
+  label_90303:
+    decay0_nucltransK(prng_, event_, 0.903, 0.070, 5.5e-3, 0., tclev, thlev, tdlev);
+    goto label_10000;
+  label_364:
+    thlev = 48.0e-12;
+    decay0_nucltransK(prng_, event_, 0.253, 0.070, 0.144, 0., tclev, thlev, tdlev);
+    goto label_111;
+  label_111:
+    thlev = 1.251e-9;
+    decay0_nucltransK(prng_, event_, 0.111, 0.070, 2.57, 0., tclev, thlev, tdlev);
+    goto label_10000;
+  label_10000:
+    return;
+  label_20000:
+    // print *,'W184: wrong level [keV] ',levelkev_
+    return;
+  }
+  // end of W184low.f
+
+} // end of namespace bxdecay0
+
+// end of W184low.cc
+// Local Variables: --
+// mode: c++ --
+// End: --
